@@ -136,10 +136,12 @@ def _ext_json(t, name, payload, exts):
     return {"v": "Extension", "extensions": list(exts), "typ": ref_type_json(t), "value": {"c": name, "v": payload}}
 
 
-def build_value(v):
+def build_value(v, one_shot=False):
+    """one_shot: pass one-shot iterators wherever the API accepts an Iterable."""
     from hugr import val
 
     k = v[0]
+    it = (lambda xs: iter(list(xs))) if one_shot else (lambda xs: list(xs))
     if k == "Sum":
         return val.Sum(v[1], T.build_type(v[2]), [build_value(x) for x in v[3]])
     if k == "UnitSum":
@@ -151,15 +153,15 @@ def build_value(v):
     if k == "UnitV":
         return val.Unit
     if k == "TupleV":
-        return val.Tuple(*[build_value(x) for x in v[1]])
+        return val.Tuple(*[build_value(x, one_shot) for x in v[1]])
     if k == "SomeV":
-        return val.Some(*[build_value(x) for x in v[1]])
+        return val.Some(*[build_value(x, one_shot) for x in v[1]])
     if k == "NoneV":
         return val.None_(*[T.build_type(t) for t in v[1]])
     if k == "LeftV":
-        return val.Left([build_value(x) for x in v[1]], [T.build_type(t) for t in v[2]])
+        return val.Left(it(build_value(x, one_shot) for x in v[1]), it(T.build_type(t) for t in v[2]))
     if k == "RightV":
-        return val.Right([T.build_type(t) for t in v[1]], [build_value(x) for x in v[2]])
+        return val.Right(it(T.build_type(t) for t in v[1]), it(build_value(x, one_shot) for x in v[2]))
     if k == "IntV":
         from hugr.std.int import IntVal
 
